@@ -531,6 +531,11 @@ def main(args=None):
         except (KeyboardInterrupt, SystemExit):
             pass
     finally:
+        # Restore the state of the global `@line_profiler.profile` first:
+        # writing or viewing the results below may fail (e.g. an
+        # unwritable output file)
+        if global_profiler:
+            global_profiler._profile, global_profiler.enabled = old_global_state
         if options.line_by_line:
             # Auto-profiled imports switch the profiler on without a
             # matching disable; do not leave it tracing after the run.
@@ -562,9 +567,6 @@ def main(args=None):
                 print(f'{py_exe} -m pstats "{options.outfile}"')
             else:
                 print(f'{py_exe} -m line_profiler -rmt "{options.outfile}"')
-        # Restore the state of the global `@line_profiler.profile`
-        if global_profiler:
-            global_profiler._profile, global_profiler.enabled = old_global_state
 
 
 if __name__ == '__main__':
